@@ -278,6 +278,20 @@ Theorem C03_div_dense_partial : forall (A : sparse Z) (T : dense Z), wf_sp zisz 
             den_sp x0 (impl_div_dense 0%Z xdivz A T) i = xdivz (zden_sp A i) (zden T i).
 Proof. exact div_dense_ieee_partial. Qed.
 
+(* finding A-07 (open): sparse / sparse exactly as pyttb computes it, transliterated over the generated helpers (pyttb's own
+   enumeration order of allsubs), is refuted ... *)
+Theorem C03_div_sparse_asis_refuted : ~ div_sparse_asis_stmt.
+Proof. exact div_sparse_asis_refuted. Qed.
+(* ... and is the element-wise quotient when both operands store the same subscripts in the same order (any quotient
+   function dv, any duplicate-free enumeration of the shape, fill value xnan = 0/0) *)
+Theorem C03_div_sparse_asis_partial : forall (V X : Type) (v0 : V) (isz : V -> bool) (x0 : X)
+  (dv : V -> V -> X) (xnan xzero : X) (alls : list idx) (A B : sparse V),
+  wf_sp isz A -> wf_sp isz B -> sshape B = sshape A -> sshape A <> [] -> ssubs B = ssubs A ->
+  NoDup alls -> (forall i, In i alls <-> inb (sshape A) i = true) -> xnan = dv v0 v0 ->
+  exists R, impl_div_asis v0 dv xnan xzero alls A B = Ok R /\ wf_struct R /\ sshape R = sshape A /\
+            forall i, inb (sshape A) i = true -> den_sp x0 R i = dv (den_sp v0 A i) (den_sp v0 B i).
+Proof. exact @impl_div_asis_partial. Qed.
+
 Print Assumptions C03_neg.
 Print Assumptions C03_ones.
 Print Assumptions C03_not.
@@ -320,6 +334,8 @@ Print Assumptions C03_div_scalar.
 Print Assumptions C03_div_scalar_ieee.
 Print Assumptions C03_div_dense_refuted.
 Print Assumptions C03_div_dense_partial.
+Print Assumptions C03_div_sparse_asis_refuted.
+Print Assumptions C03_div_sparse_asis_partial.
 
 (* non-vacuity on concrete, non-symmetric 2x3 operands stored in different (unsorted) orders *)
 Local Open Scope Z_scope.
@@ -346,3 +362,20 @@ Example C03_example_logic_cmp :
   full 0 (impl_cmp 0 1 Z.eqb exA exB) = mkDense [2; 3]%nat [0; 1; 0; 1; 1; 0] /\
   full 0 (impl_cmp_scalar 0 1 Z.gtb exA (-1)) = mkDense [2; 3]%nat [1; 1; 0; 1; 1; 1].
 Proof. repeat split; reflexivity. Qed.
+
+(* the transliterations over the generated helpers and the extra code paths on the same operands *)
+Example C03_example_generated :
+  (exists R, impl_mul_gen 0 Z.mul exA exB = Ok R /\ full 0 R = mkDense [2; 3]%nat [0; 25; 0; 0; 0; -18]) /\
+  (exists R, impl_eq_gen 0 1 Z.eqb exA exB = Ok R /\ full 0 R = mkDense [2; 3]%nat [0; 1; 0; 1; 1; 0]) /\
+  impl_cmp_gen 0 1 Z.leb exA exB = Ok (impl_cmp 0 1 Z.leb exA exB) /\
+  GenUtils.tt_intersect_rows (zrows (ssubs exA)) (zrows (ssubs exB)) = Ok [2; 0] /\
+  GenUtils.tt_setdiff_rows (zrows (ssubs exA)) (zrows (ssubs exB)) = Ok [1].
+Proof. repeat split; try (eexists; split; reflexivity); reflexivity. Qed.
+Example C03_example_more :
+  full 0 (impl_ne_sparse 0 1 Z.eqb exA exB) = mkDense [2; 3]%nat [1; 0; 1; 0; 0; 1] /\
+  full 0 (impl_eq_scalar zisz 1 Z.eqb exA 5) = mkDense [2; 3]%nat [0; 1; 0; 0; 0; 0] /\
+  full 0 (impl_and_dense 0 zisz 1 exA (mkDense [2; 3]%nat [1; 0; 2; 0; 0; 3])) = mkDense [2; 3]%nat [0; 0; 1; 0; 0; 1] /\
+  (exists R, impl_div_scalar_gen zisz xdivz XNaN exA 0 = Ok R /\
+             map (den_sp x0 R) [[0; 0]; [1; 0]; [0; 1]]%nat = [XNaN; XPInf; XNInf]) /\
+  map (den_sp x0 (impl_div_dense 0 xdivz exA (mkDense [2; 3]%nat [1; 0; 2; 0; 0; 3]))) [[1; 0]; [1; 1]; [0; 0]]%nat = [XPInf; x0; x0].
+Proof. repeat split; try (eexists; split; reflexivity); reflexivity. Qed.
